@@ -198,7 +198,7 @@ func depVerdict(w *World, r *Report, rule string) {
 		r.Undecided(rule, FuncName(cs), w.Pos(cs.Pos()), "dependency loop not recognised")
 		return
 	}
-	res := w.EnumPaths(cs, EnumOpts{Start: body, StopBlock: func(b *ssa.BasicBlock) bool { return b == header }})
+	res := w.EnumPaths(cs, EnumOpts{Inline: true, Start: body, StopBlock: func(b *ssa.BasicBlock) bool { return b == header }})
 	r.Count("paths", len(res.Paths))
 	// identify the dependency stage access path from a ReadStatus literal
 	D := ""
@@ -221,6 +221,36 @@ func depVerdict(w *World, r *Report, rule string) {
 			fmt.Println(i, p.BackPhi)
 		}
 	}
+	// the loop-carried flag: the header phi the function's result comes from (whatever its name)
+	flag := "ready"
+	allInstrs(cs, func(in ssa.Instruction) {
+		rt, ok := in.(*ssa.Return)
+		if !ok || len(rt.Results) != 1 {
+			return
+		}
+		var find func(v ssa.Value, d int) *ssa.Phi
+		find = func(v ssa.Value, d int) *ssa.Phi {
+			ph, ok := v.(*ssa.Phi)
+			if !ok || d > 3 {
+				return nil
+			}
+			if ph.Block() == header {
+				return ph
+			}
+			for _, e := range ph.Edges {
+				if r := find(e, d+1); r != nil {
+					return r
+				}
+			}
+			return nil
+		}
+		if ph := find(rt.Results[0], 0); ph != nil {
+			flag = ph.Comment
+			if flag == "" {
+				flag = ph.Name()
+			}
+		}
+	})
 	bad := ""
 	n := 0
 	var names []string
@@ -244,8 +274,8 @@ func depVerdict(w *World, r *Report, rule string) {
 				return
 			}
 			p := live[0].Path
-			cleared := p.BackPhi["ready"] == "false"
-			kept := p.BackPhi["ready"] == "<unchanged>"
+			cleared := p.BackPhi[flag] == "false"
+			kept := p.BackPhi[flag] == "<unchanged>"
 			marked := false
 			for _, e := range p.Effects {
 				if e.Kind == "call" && strings.HasSuffix(e.Target, ".UpdateStatus") && e.Val == "arg1,"+fmt.Sprint(st["Canceled"]) {
